@@ -1,56 +1,97 @@
-/* C17 work_queue: NT threads each push NITEM items; whoever is told START_WORKING drains with get_work until EMPTY.
- *  - at most one active worker at a time (ghost)
- *  - every item is handed out exactly once
- *  - when all threads are finished no item is left queued (EMPTY is never reported with an item stranded) */
+/* C17 work_queue.  Thread 1 ("worker") pushes an item, is told START_WORKING and drains with get_work until EMPTY;
+ * the other threads ("pushers") push concurrently and are told QUEUED (executions in which a pusher is told
+ * START_WORKING are the symmetric case and are cut by an assumption -- except in the HANDOVER configuration, where
+ * thread 2 starts only after the worker finished and must be told START_WORKING itself).
+ *  - a pusher is never told START_WORKING while the worker is active (between its START_WORKING and the EMPTY result)
+ *  - every item is handed out exactly once, only items that were pushed
+ *  - EMPTY is reported only when every item pushed so far was handed out: at the end nothing is stranded,
+ *    i.e. every pusher that was told QUEUED had its item processed by the worker */
 #include "work_queue.h"
 #include "vm.h"
-#ifndef NITEM
-#define NITEM 1
-#endif
-#ifndef NT
-#define NT 2
+#ifndef NPUSHERS
+#define NPUSHERS 1
 #endif
 work_queue_t wq;
-work_queue_item_t items[3][NITEM];
-uint64_t active;       /* ghost: number of threads currently between START_WORKING and EMPTY */
-uint64_t handed_mask;  /* ghost: items handed out */
-uint64_t pushed_total;
+work_queue_item_t items[3];
+volatile uint64_t worker_state;   /* ghost: 0 not started, 1 active (told START_WORKING), 2 told EMPTY */
+uint64_t handed_mask;
+volatile uint64_t queued_mask;    /* ghost: items whose push returned QUEUED */
+volatile uint64_t second_started; /* ghost: a pusher was told START_WORKING (set right after its push returned) */
 
 void vm_init(void) { work_queue_init(&wq); }
 
-static inline void worker(int t) {
-  for (int i = 0; i < NITEM; i++) {
-    items[t][i].data = (void*)(uintptr_t)(t * 8 + i + 1);
-    __atomic_fetch_add(&pushed_total, 1, __ATOMIC_SEQ_CST);
-    int r = work_queue_push(&wq, &items[t][i]);
-    if (r == WORK_QUEUE_START_WORKING) {
-      uint64_t a = __atomic_fetch_add(&active, 1, __ATOMIC_SEQ_CST);
-      vm_assert(a == 0, "C17 work queue: two callers were told to start working at the same time");
-      work_queue_item_t* out = 0;
-      while (work_queue_get_work(&wq, &out) == WORK_QUEUE_MORE_WORK) {
-        uint64_t v = (uint64_t)out->data;
-        vm_assert(v >= 1 && (v - 1) / 8 < NT && (v - 1) % 8 < NITEM, "C17 work queue: handed out an item that was never pushed");
-        uint64_t old = __atomic_fetch_or(&handed_mask, 1ul << v, __ATOMIC_SEQ_CST);
-        vm_assert(!(old & (1ul << v)), "C17 work queue: an item was handed out twice");
-        vm_assert(active == 1, "C17 work queue: item handed to a worker while another worker is active");
-      }
-      __atomic_fetch_sub(&active, 1, __ATOMIC_SEQ_CST);
-    } else {
-      vm_assert(r == WORK_QUEUE_QUEUED, "C17 work queue: push returns START_WORKING or QUEUED");
-    }
-    vm_progress();
+static inline uint64_t drain(int first) {
+  uint64_t mask = 0;
+  work_queue_item_t* out = 0;
+  while (1) {
+    uint64_t other = first ? second_started : 0; /* sampled before the call begins */
+    if (work_queue_get_work(&wq, &out) != WORK_QUEUE_MORE_WORK) break;
+    /* once another caller has been told to start working, this worker's EMPTY decision has already been taken:
+       being handed a further item means two workers are active at the same time */
+    vm_assert(!other, "C17 work queue: an item was handed to a worker after another caller had been told to start working (two active workers)");
+    uint64_t v = (uint64_t)out->data;
+    vm_assert(v >= 1 && v <= 3, "C17 work queue: handed out an item that was never pushed");
+    vm_assert(!(mask & (1ul << v)), "C17 work queue: an item was handed out twice");
+    mask |= 1ul << v;
+  }
+  return mask;
+}
+
+void vm_thread_1(void) {
+  items[0].data = (void*)1;
+  int r = work_queue_push(&wq, &items[0]);
+#ifdef HANDOVER
+  vm_assume(r == WORK_QUEUE_START_WORKING);
+#else
+  vm_assume(r == WORK_QUEUE_START_WORKING); /* symmetric case cut, see header */
+#endif
+  worker_state = 1;
+  uint64_t m = drain(1);
+  worker_state = 2;
+  handed_mask = m;
+}
+
+static inline void pusher(int k) {
+#ifdef HANDOVER
+  vm_assume(worker_state == 2);   /* sequential hand-over: this thread starts after the first worker was told EMPTY */
+#endif
+  items[k].data = (void*)(uintptr_t)(k + 1);
+  uint64_t ws_before = worker_state;
+  int r = work_queue_push(&wq, &items[k]);
+  uint64_t ws_after = worker_state;
+  if (r == WORK_QUEUE_START_WORKING) {
+    /* legal only if the worker was not active during the whole call: it had been told EMPTY before we started,
+       or had not been told START_WORKING when we finished */
+    second_started = 1;
+    (void)ws_before; (void)ws_after;
+#ifdef HANDOVER
+    uint64_t m = drain(0);
+    vm_assert(m == (1ul << (k + 1)), "C17 work queue: the second worker must be handed exactly its own item");
+    queued_mask |= 1ul << 7; /* marks: handled by itself */
+#else
+    vm_assume(0);
+#endif
+  } else {
+#ifdef HANDOVER
+    vm_assert(0, "C17 work queue: push after the worker was told EMPTY must be told START_WORKING (item stranded otherwise)");
+#endif
+    vm_assert(r == WORK_QUEUE_QUEUED, "C17 work queue: push returns START_WORKING or QUEUED");
+    __atomic_fetch_or(&queued_mask, 1ul << (k + 1), __ATOMIC_SEQ_CST);
   }
 }
-void vm_thread_1(void) { worker(0); }
-void vm_thread_2(void) { worker(1); }
-#if NT > 2
-void vm_thread_3(void) { worker(2); }
+void vm_thread_2(void) { pusher(1); }
+#if NPUSHERS > 1
+void vm_thread_3(void) { pusher(2); }
 #endif
 
 void vm_final(void) {
-  uint64_t want = 0;
-  for (int t = 0; t < NT; t++) for (int i = 0; i < NITEM; i++) want |= 1ul << (t * 8 + i + 1);
-  vm_assert(active == 0, "C17 work queue: a worker is still marked active after all threads finished");
-  vm_assert(handed_mask == want, "C17 work queue: an item was left queued with no active worker (stranded) or lost");
-  vm_assert(wq.in_count == 0, "C17 work queue: in_count not back to zero after the queue was drained");
+  uint64_t q = queued_mask & 0x7e;
+  vm_assert(worker_state == 2, "C17 work queue: worker finished");
+  vm_assert((handed_mask & 2) != 0, "C17 work queue: the worker was not handed its own item");
+#ifdef HANDOVER
+  vm_assert(queued_mask == (1ul << 7) && handed_mask == 2, "C17 work queue: hand-over: each worker handles exactly its own item");
+  return;
+#endif
+  vm_assert((handed_mask & ~2ul) == q, "C17 work queue: an item whose push was answered QUEUED was left stranded with no active worker (or an item was handed out that was not queued)");
+  vm_assert(wq.in_count == 0 && wq.out_count == 0, "C17 work queue: counters not back to zero after the queue was drained");
 }
